@@ -24,7 +24,7 @@ func (c *c17Case) Main()          { c.Inner.Main() }
 func (c *c17Case) Env() *Env      { return c.Inner.Env() }
 
 func genC17(d *Draw) Case {
-	fams := []string{"C01", "C03", "C06", "C08", "C10", "C11", "C04"}
+	fams := []string{"C01", "C03", "C06", "C08", "C10", "C11", "C04", "C14", "C05"}
 	fam := fams[d.N(len(fams))]
 	var inner Case
 	switch fam {
@@ -46,6 +46,10 @@ func genC17(d *Draw) Case {
 		inner = genC10(d)
 	case "C11":
 		inner = genC11(d)
+	case "C14":
+		inner = genC14(d)
+	case "C05":
+		inner = genC05(d)
 	}
 	if pc, ok := inner.(*ProcCase); ok {
 		pc.Stress = &Stress{Subs: d.N(3), Readers: d.N(3), ConcAnswers: d.Bool(), Waiters: d.N(3)}
